@@ -387,13 +387,22 @@ func ruleR14d(h *H) {
 	}
 	var afterReplay func(fn *ssa.Function, at ssa.Instruction, depth int) (bool, string)
 	afterReplay = func(fn *ssa.Function, at ssa.Instruction, depth int) (bool, string) {
-		found := false
+		var events []ssa.Instruction
 		ir.Instrs(fn, func(in ssa.Instruction) {
-			if ci, ok := in.(ssa.CallInstruction); ok && in != at && replays(ci) && ir.Dominates(in, at) {
-				found = true
+			if ci, ok := in.(ssa.CallInstruction); ok && in != at && replays(ci) {
+				events = append(events, in)
 			}
 		})
-		if found {
+		before := false
+		for _, e := range events {
+			if r, _ := ir.Reach(ir.Search{From: at}, ir.Is(e)); r {
+				return false, "entries are still replayed into the DB (" + h.pos(e) + ") after it ran"
+			}
+			if r, _ := ir.Reach(ir.Search{From: e}, ir.Is(at)); r {
+				before = true
+			}
+		}
+		if before {
 			return true, ""
 		}
 		if depth >= 3 {
@@ -418,7 +427,7 @@ func ruleR14d(h *H) {
 	for _, s := range h.P.AllCalls(ir.InPkg("server"), smInitialize) {
 		ni++
 		ok, why := afterReplay(s.Fn, s.Call, 0)
-		h.Verdict(ok, rule, fmt.Sprintf("sessions initialised from a replayed DB #%d", ni), h.pos(s.Call), "the replay of the log tail dominates SessionManager.Initialize",
+		h.Verdict(ok, rule, fmt.Sprintf("sessions initialised from a replayed DB #%d", ni), h.pos(s.Call), "the replay of the log tail precedes SessionManager.Initialize and nothing is replayed after it",
 			"SessionManager.Initialize reads the sessions from a DB that has not been brought up to the log head yet: a session whose creation is still in the unapplied tail is never registered on the new leader (KeepAlive fails, its ephemeral records never expire). "+why)
 	}
 	if ni == 0 {
